@@ -1,5 +1,6 @@
-// GENERATED on every run by vlib/extract.py from /tmp/refcheck-18294 -- do not edit
+// GENERATED on every run by vlib/extract.py from /tmp/clean0 -- do not edit
 #![allow(unused_imports, unused_variables, unused_mut, dead_code, unused_parens, unused_braces, non_snake_case)]
+#![feature(allocator_api)]
 use vstd::prelude::*;
 use core::cmp::Ordering;
 use core::marker::PhantomData;
@@ -1024,6 +1025,8 @@ pub fn get_mut(&mut self) -> (r: &mut SmallString)
         requires old(self).wf()
         ensures *r == old(self).qualifiers@[old(self).index as int].1, final(self).index == old(self).index,
             final(self).qualifiers@ == old(self).qualifiers@.update(old(self).index as int, (old(self).qualifiers@[old(self).index as int].0, *final(r))),
+            // the entry still refers to the same list
+            final(final(self).qualifiers)@ == final(old(self).qualifiers)@,
             final(self).wf()
 {
         proof { let v = self.qualifiers@; let ix = self.index as int;
@@ -1258,12 +1261,65 @@ where SmallString: From<K> + From<V>,
                 && final(self->Vacant_0.qualifiers)@.len() == old(self->Vacant_0.qualifiers)@.len() + 1
                 && final(self->Vacant_0.qualifiers)@[ix].0.0@ == self->Vacant_0.key.canon()
                 && final(self->Vacant_0.qualifiers)@ == old(self->Vacant_0.qualifiers)@.insert(ix, (final(self->Vacant_0.qualifiers)@[ix].0, *final(r)))
+                && (<SmallString as vstd::std_specs::convert::FromSpec<V>>::obeys_from_spec() ==>
+                        *r == <SmallString as vstd::std_specs::convert::FromSpec<V>>::from_spec(default))
             }),
 {
         match self {
             Entry::Occupied(o) => o.into_mut(),
             Entry::Vacant(v) => v.insert(default),
         }
+    }
+// ---- unit U-qmap.Entry.or_insert_with  <= purl/src/qualifiers.rs:396 ----
+pub fn or_insert_with<F, V>(self, default: F) -> (r: &'a mut SmallString)
+where F: FnOnce() -> V, SmallString: From<K> + From<V>,
+        requires match self { Entry::Occupied(o) => o.wf(), Entry::Vacant(v) => v.wf() }, default.requires(())
+        ensures
+            self is Occupied ==> ({
+                let ix = self->Occupied_0.index as int;
+                *r == old(self->Occupied_0.qualifiers)@[ix].1
+                && final(self->Occupied_0.qualifiers)@ == old(self->Occupied_0.qualifiers)@.update(ix, (old(self->Occupied_0.qualifiers)@[ix].0, *final(r)))
+                && wf_seq(final(self->Occupied_0.qualifiers)@)
+            }),
+            self is Vacant ==> ({
+                let ix = self->Vacant_0.index as int;
+                wf_seq(final(self->Vacant_0.qualifiers)@)
+                && final(self->Vacant_0.qualifiers)@.len() == old(self->Vacant_0.qualifiers)@.len() + 1
+                && final(self->Vacant_0.qualifiers)@[ix].0.0@ == self->Vacant_0.key.canon()
+                && final(self->Vacant_0.qualifiers)@ == old(self->Vacant_0.qualifiers)@.insert(ix, (final(self->Vacant_0.qualifiers)@[ix].0, *final(r)))
+                // the closure is called exactly here, and what it returns is what is stored
+                && exists|dv: V| #[trigger] default.ensures((), dv) && (<SmallString as vstd::std_specs::convert::FromSpec<V>>::obeys_from_spec() ==>
+                        *r == <SmallString as vstd::std_specs::convert::FromSpec<V>>::from_spec(dv))
+            }),
+{
+        match self {
+            Entry::Occupied(o) => o.into_mut(),
+            Entry::Vacant(v) => v.insert(default()),
+        }
+    }
+// ---- unit U-qmap.Entry.and_modify  <= purl/src/qualifiers.rs:408 ----
+pub fn and_modify<F>(self, f: F) -> (r: Self)
+where F: FnOnce(&mut SmallString),
+        requires match self { Entry::Occupied(o) => o.wf(), Entry::Vacant(v) => v.wf() },
+            forall|y: &mut SmallString| f.requires((y,))
+        ensures
+            // absent: nothing happens, the closure is not called
+            self is Vacant ==> r == self,
+            // present: the closure is applied to exactly the value of that key; keys, order and the other values are untouched
+            self is Occupied ==> r is Occupied && r->Occupied_0.index == self->Occupied_0.index,
+            self is Occupied ==> r->Occupied_0.wf(),
+            self is Occupied ==> final(r->Occupied_0.qualifiers)@ == final(self->Occupied_0.qualifiers)@,
+            self is Occupied ==> exists|y: &mut SmallString| #[trigger] f.ensures((y,), ())
+                    && *y == self->Occupied_0.qualifiers@[self->Occupied_0.index as int].1
+                    && r->Occupied_0.qualifiers@ == self->Occupied_0.qualifiers@.update(self->Occupied_0.index as int,
+                            (self->Occupied_0.qualifiers@[self->Occupied_0.index as int].0, *final(y)))
+{
+    let mut this = self;
+        match &mut this {
+            Entry::Occupied(ref mut o) => f(o.get_mut()),
+            Entry::Vacant(_) => {},
+        }
+        this
     }
 }
 impl Qualifiers {
@@ -1279,6 +1335,94 @@ pub fn index<K: AsRef<str>>(&self, index: K) -> (r: &SmallString)
             x_panic_absent();
         };
         value
+    }
+// ---- unit U-qmap.index_mut  <= purl/src/qualifiers.rs:627 ----
+pub fn index_mut<K: AsRef<str>>(&mut self, index: K) -> (r: &mut SmallString)
+        requires old(self).wf(), valid_key(index.text()) && has_key(old(self).qualifiers@, lower_ascii_seq(index.text()))
+        ensures ({
+                let p = pos_of(old(self).qualifiers@, lower_ascii_seq(index.text()));
+                0 <= p < old(self).qualifiers@.len() && *r == old(self).qualifiers@[p].1
+                && final(self).qualifiers@ == old(self).qualifiers@.update(p, (old(self).qualifiers@[p].0, *final(r)))
+            }),
+            final(self).wf()
+{
+        broadcast use axiom_view_of_str;
+        proof { let v = self.qualifiers@;
+            assert forall|ix: int, x: SmallString| 0 <= ix < v.len() implies wf_seq(#[trigger] v.update(ix, (v[ix].0, x))) by { lemma_update_value_keeps_wf(v, ix, x); } }
+
+        let index = index.as_ref();
+        let Some(value) = (match self.get_index(index) { Some(i) => Some(&mut self.qualifiers[i].1), None => None }) else {
+            x_panic_absent();
+        };
+        value
+    }
+}
+// ---- unit stub.vec_capacity  <= (contracts):0 ----
+
+// std contracts (assumed): capacity management never touches the content
+pub assume_specification<T, A: core::alloc::Allocator>[Vec::<T, A>::reserve_exact](v: &mut Vec<T, A>, additional: usize)
+    ensures final(v)@ == old(v)@;
+pub assume_specification<T, A: core::alloc::Allocator>[Vec::<T, A>::capacity](v: &Vec<T, A>) -> (r: usize)
+    ensures r >= v@.len();
+// R9: derive(Default) on Qualifiers (derive semantics, assumed): the empty list
+impl Default for Qualifiers {
+    fn default() -> (r: Self) ensures r.qualifiers@.len() == 0
+    { Qualifiers { qualifiers: Vec::new() } }
+}
+
+impl Qualifiers {
+// ---- unit U-qmap.reserve  <= purl/src/qualifiers.rs:98 ----
+pub fn reserve(&mut self, additional: usize)
+        ensures final(self).qualifiers@ == old(self).qualifiers@
+{
+        self.qualifiers.reserve(additional)
+    }
+// ---- unit U-qmap.reserve_exact  <= purl/src/qualifiers.rs:107 ----
+pub fn reserve_exact(&mut self, additional: usize)
+        ensures final(self).qualifiers@ == old(self).qualifiers@
+{
+        self.qualifiers.reserve_exact(additional)
+    }
+// ---- unit U-qmap.capacity  <= purl/src/qualifiers.rs:61 ----
+pub fn capacity(&self) -> (r: usize)
+        ensures r >= self.qualifiers@.len()
+{
+        self.qualifiers.capacity()
+    }
+// ---- unit U-qmap.with_capacity  <= purl/src/qualifiers.rs:54 ----
+pub fn with_capacity(capacity: usize) -> (r: Self)
+        ensures r.qualifiers@.len() == 0, r.wf()
+{
+        let mut this = Self::default();
+        this.reserve_exact(capacity);
+        this
+    }
+}
+impl QualifierKey {
+// ---- unit U-qkey.as_str  <= purl/src/qualifiers.rs:368 ----
+pub fn as_str(&self) -> (r: &str)
+        ensures r@ == self.0@
+{
+        self.0.as_str()
+    }
+}
+impl<'a> Iter<'a> {
+// ---- unit U-qmap.Iter.next_back  <= purl/src/qualifiers.rs:507 ----
+pub fn next_back(&mut self) -> (r: Option<(&'a QualifierKey, &'a str)>)
+        ensures
+            old(self).rem().len() == 0 ==> r is None,
+            old(self).rem().len() > 0 ==> r is Some
+                && r->Some_0.0.0@ == old(self).rem().last().0.0@ && r->Some_0.1@ == old(self).rem().last().1@
+                && final(self).rem() == old(self).rem().drop_last(),
+{
+        let (k, v) = self.0.next_back()?;
+        Some((k, v.as_str()))
+    }
+// ---- unit U-qmap.Iter.size_hint  <= purl/src/qualifiers.rs:499 ----
+pub fn size_hint(&self) -> (r: (usize, Option<usize>))
+        ensures r.0 == self.rem().len(), r.1 == Some(r.0)
+{
+        (self.0.len(), Some(self.0.len()))
     }
 }
 
